@@ -314,4 +314,24 @@ example : addDef "p".toList "p".toList "sub, obj, act   # see issue #12, a = b".
   trailing_comment_ignored "p".toList "p".toList "sub, obj, act".toList "   ".toList " see issue #12, a = b".toList
     (by intro x hx; revert x; decide +kernel) (by intro x hx; revert x; decide +kernel)
 
+/-- **blanks or a line end after a definition's value do not change it** - also when there is no comment to cut off (a
+value handed to `Model::add_def` directly, as read from a prompt or a database column) -/
+theorem trailing_blanks_ignored (sec key v ws : Str) (hv : ∀ x ∈ v, x ≠ '#') (hws : ∀ x ∈ ws, isWs x = true) :
+    addDef sec key (v ++ ws) = addDef sec key v := by
+  have hvw : ∀ x ∈ v ++ ws, x ≠ '#' := by
+    intro x hx
+    rcases List.mem_append.mp hx with h | h
+    · exact hv x h
+    · intro he; subst he; have := hws '#' h; simp [isWs] at this
+  have hrc : removeComment (v ++ ws) = removeComment v := by
+    unfold removeComment
+    rw [takeWhile_no_hash (v ++ ws) hvw, takeWhile_no_hash v hv, trimR_append_ws_gen v ws hws]
+  unfold addDef
+  simp only [hrc]
+
+example : addDef "e".toList "e".toList "some(where (p.eft == allow)) \n".toList =
+    addDef "e".toList "e".toList "some(where (p.eft == allow))".toList :=
+  trailing_blanks_ignored "e".toList "e".toList "some(where (p.eft == allow))".toList " \n".toList
+    (by intro x hx; revert x; decide +kernel) (by intro x hx; revert x; decide +kernel)
+
 end Casbin.C16
